@@ -154,4 +154,24 @@ PROPS = {
                  "distinct by hash of (rule text, buffers, capacities)."),
         "assumptions": [],
     },
+    "C12": {
+        "src": "c12", "engine": "rc", "level": "exploration",
+        "technique": "metamorphic property-based testing (rapidcheck): verdict-preserving rewrites of rules, scan flags, atom tables and external redefinitions",
+        "level_text": ("For a generated rule (text/hex/regexp strings, condition from the C04 grammar) the check builds "
+                       "twins that the manual says are equivalent - `(C) or filesize < 0`, `(C) and filesize >= 0`, integer "
+                       "literals rewritten as equal-valued constant expressions over + - * \\ % & | ^ ~ << >> and unary "
+                       "minus or in another radix, literals replaced by external variables, externals compiled with other "
+                       "values and redefined at rules or scanner level before the scan - and scans in normal and fast "
+                       "mode and with a generated atom quality table; verdicts (and match offsets for the atom table, "
+                       "compile success for constant twins) must agree."),
+        "level_note": ("Trusts the shim; constants stay far from 64-bit overflow so the documented overflow rejection is "
+                       "not what decides compile success; variable-length strings are compared on offsets only under "
+                       "a different atom table."),
+        "quick": (2500, 45), "thorough": (80000, 600),
+        "floor": 100,
+        "rule": ("case = one generated rule + 5 twins + 2-4 buffers + an atom quality table over every <= 4-byte window of "
+                 "the strings. Non-trivial: >= 1 integer literal was rewritten and the base verdict is true on >= 1 buffer "
+                 "and false on >= 1 buffer; distinct by hash of (all rule text, externals, buffers)."),
+        "assumptions": [],
+    },
 }
